@@ -45,8 +45,8 @@ ASSUMPTIONS = [
     "docstring-internal inconsistency, not judged)",
     "eps clamps ('returns a large value instead of inf') are max(denominator, eps); zero relative "
     "errors enter geometric means as eps (docstring examples)",
-    "scale-invariance law is required bit-exactly for factors 2 and 0.5 (exact in binary floating "
-    "point) and only where the in-sample naive error is not clamped (flat training series return "
+    "scale-invariance law is required bit-exactly for factors 2, 0.5, 2^-20 and 2^20 (exact in "
+    "binary floating point) and only where the in-sample naive error is not clamped (flat training series return "
     "the documented 'large value', which scales with the data)",
     "symmetric squared percentage errors without square_root are bounded by 4 (=2^2), all other "
     "symmetric percentage errors by 2",
@@ -546,7 +546,10 @@ def _run_fn(case, res):
             if all(clamped):
                 outs.add("clamped")
             else:
-                for c in (2.0, 0.5):
+                pw = 2 if "squared" in name else 1
+                for c in (2.0, 0.5, 2.0 ** -20, 2.0 ** 20):
+                    if any(0 < d * c ** pw < 1e-13 for d in info.get("den", [])):
+                        continue  # the rescaled in-sample error would reach the documented floor
                     a2, ex2 = _args(case, third, yt, yp, c)
                     o2 = call(fn, *a2, **ex2, **kw)
                     res.evals += 1
